@@ -1,0 +1,128 @@
+//go:build verif
+
+package msghub
+
+import (
+	"github.com/inbucket/inbucket/v3/pkg/extension/event"
+)
+
+var _ event.MessageMetadata
+
+// ---------------------------------------------------------------------------------------------
+// C15: the hub's operations, one at a time (they are closures run in FIFO order by the hub goroutine).
+//
+// Ghost state of a listener (owned by the contract of the Listener interface): how many events it has
+// been handed, the events in order, and whether the most recent call reported a failure.
+func ghost_nrecv(l Listener) int           { panic("ghost") }
+func ghost_recvd(l Listener) vcSeq[string] { panic("ghost") }
+func ghost_failed(l Listener) bool         { panic("ghost") }
+
+// The log records "S:<mailbox>/<id>" for a stored message and "D:<mailbox>/<id>" for a deleted one.
+//@ pred spec_evStored(msg event.MessageMetadata) string = "S:" + msg.Mailbox + "/" + msg.ID
+//@ pred spec_evDeleted(mailbox string, id string) string = "D:" + mailbox + "/" + id
+
+// A listener may fail (error) and may even panic (e.g. a send on its closed channel); either way the
+// call is one attempt.
+//@ iface Listener.Receive(self Listener, msg event.MessageMetadata) (err error)
+//@   maypanic
+//@   modifies ghost_nrecv(self), ghost_recvd(self), ghost_failed(self)
+//@   ensures ghost_nrecv(self) == old(ghost_nrecv(self)) + 1 && vcSeqAt(ghost_recvd(self), old(ghost_nrecv(self))) == spec_evStored(msg)
+//@   ensures ghost_failed(self) == (err != nil)
+//@   ensures[onpanic] ghost_failed(self) && ghost_nrecv(self) == old(ghost_nrecv(self)) + 1
+//@   ensures forall j int :: { vcSeqAt(ghost_recvd(self), j) } 0 <= j && j < old(ghost_nrecv(self)) ==> vcSeqAt(ghost_recvd(self), j) == old(vcSeqAt(ghost_recvd(self), j))
+
+//@ iface Listener.Delete(self Listener, mailbox string, id string) (err error)
+//@   maypanic
+//@   modifies ghost_nrecv(self), ghost_recvd(self), ghost_failed(self)
+//@   ensures ghost_nrecv(self) == old(ghost_nrecv(self)) + 1 && vcSeqAt(ghost_recvd(self), old(ghost_nrecv(self))) == spec_evDeleted(mailbox, id)
+//@   ensures ghost_failed(self) == (err != nil)
+//@   ensures[onpanic] ghost_failed(self) && ghost_nrecv(self) == old(ghost_nrecv(self)) + 1
+//@   ensures forall j int :: { vcSeqAt(ghost_recvd(self), j) } 0 <= j && j < old(ghost_nrecv(self)) ==> vcSeqAt(ghost_recvd(self), j) == old(vcSeqAt(ghost_recvd(self), j))
+
+// safeReceive / safeDelete: a panicking listener is a failing listener; nothing escapes.
+//@ func recoverListener
+//@   inline
+//@ func safeReceive
+//@   requires l != nil
+//@   modifies ghost_nrecv(l), ghost_recvd(l), ghost_failed(l)
+//@   ensures[oneAttempt C15] ghost_nrecv(l) == old(ghost_nrecv(l)) + 1 && ghost_failed(l) == (err != nil)
+//@   ensures[delivered C15] err == nil ==> vcSeqAt(ghost_recvd(l), old(ghost_nrecv(l))) == spec_evStored(msg) &&
+//@      forall j int :: { vcSeqAt(ghost_recvd(l), j) } 0 <= j && j < old(ghost_nrecv(l)) ==> vcSeqAt(ghost_recvd(l), j) == old(vcSeqAt(ghost_recvd(l), j))
+//@   serves C15
+//@ func safeDelete
+//@   requires l != nil
+//@   modifies ghost_nrecv(l), ghost_recvd(l), ghost_failed(l)
+//@   ensures[oneAttempt C15] ghost_nrecv(l) == old(ghost_nrecv(l)) + 1 && ghost_failed(l) == (err != nil)
+//@   ensures[delivered C15] err == nil ==> vcSeqAt(ghost_recvd(l), old(ghost_nrecv(l))) == spec_evDeleted(mailbox, id) &&
+//@      forall j int :: { vcSeqAt(ghost_recvd(l), j) } 0 <= j && j < old(ghost_nrecv(l)) ==> vcSeqAt(ghost_recvd(l), j) == old(vcSeqAt(ghost_recvd(l), j))
+//@   serves C15
+
+// The operation queue is open until shutdown (Start closes it when the context is cancelled).
+func ghost_closedOps(c chan func(h *Hub)) bool { panic("ghost") }
+func ghost_nremoveReq(h *Hub) int              { panic("ghost") }
+func Ghost_nremoveReq(h *Hub) int              { return ghost_nremoveReq(h) }
+
+//@ pred Spec_hubOpen(hub *Hub) bool = hub != nil && hub.opChan != nil && !ghost_closedOps(hub.opChan)
+
+// RemoveListener / AddListener / Dispatch / Delete only queue an operation.
+//@ func (*Hub).RemoveListener
+//@   requires Spec_hubOpen(hub)
+//@   attr log-count=ghost_nremoveReq
+//@   serves C15
+
+// The hub's operations.  A broadcast hands the event to every registered listener exactly once —
+// whatever the history length, and whatever any other listener does (fail, panic): a listener is
+// dropped exactly when its own attempt failed; nobody else is touched.
+//@ pred spec_hubOK(h *Hub) bool = h != nil && h.listeners != nil && !vcHas(h.listeners, nil)
+
+//@ func (*Hub).Dispatch$1
+//@   requires spec_hubOK(h)
+//@   modifies h.history, h.history.Value, mapof(h.listeners), allof(ghost_nrecv), allof(ghost_recvd), allof(ghost_failed)
+//@   ensures[hubOK] spec_hubOK(h)
+//@   ensures[relayOnce C15] forall l Listener :: { ghost_nrecv(l) } ghost_nrecv(l) == old(ghost_nrecv(l)) + vcIte(old(vcHas(h.listeners, l)), 1, 0)
+//@   ensures[delivered C15] forall l Listener :: { vcHas(h.listeners, l) } vcHas(h.listeners, l) ==> old(vcHas(h.listeners, l)) && !ghost_failed(l) &&
+//@      vcSeqAt(ghost_recvd(l), old(ghost_nrecv(l))) == spec_evStored(msg)
+//@   ensures[dropsOnlyFailed C15] forall l Listener :: { vcHas(h.listeners, l) } old(vcHas(h.listeners, l)) && !vcHas(h.listeners, l) ==> ghost_failed(l)
+//@   ensures[earlierKept C15] forall l Listener, j int :: { vcSeqAt(ghost_recvd(l), j) } 0 <= j && j < old(ghost_nrecv(l)) && (vcHas(h.listeners, l) || !old(vcHas(h.listeners, l))) ==> vcSeqAt(ghost_recvd(l), j) == old(vcSeqAt(ghost_recvd(l), j))
+//@   loop 1: invariant spec_hubOK(h)
+//@   loop 1: invariant forall l Listener :: { ghost_nrecv(l) } ghost_nrecv(l) == old(ghost_nrecv(l)) + vcIte(vcIn(rvisited, l), 1, 0)
+//@   loop 1: invariant forall l Listener :: { vcIn(rvisited, l) } vcIn(rvisited, l) ==> old(vcHas(h.listeners, l))
+//@   loop 1: invariant forall l Listener :: { vcHas(h.listeners, l) } vcHas(h.listeners, l) ==> old(vcHas(h.listeners, l)) &&
+//@      (vcIn(rvisited, l) ==> !ghost_failed(l) && vcSeqAt(ghost_recvd(l), old(ghost_nrecv(l))) == spec_evStored(msg))
+//@   loop 1: invariant forall l Listener :: { vcHas(h.listeners, l) } old(vcHas(h.listeners, l)) && !vcHas(h.listeners, l) ==> vcIn(rvisited, l) && ghost_failed(l)
+//@   loop 1: invariant forall l Listener, j int :: { vcSeqAt(ghost_recvd(l), j) } 0 <= j && j < old(ghost_nrecv(l)) && (vcHas(h.listeners, l) || !old(vcHas(h.listeners, l))) ==> vcSeqAt(ghost_recvd(l), j) == old(vcSeqAt(ghost_recvd(l), j))
+//@   serves C15
+
+// Delete: the history entry (if any) is blanked, then the same relay as for a stored message.
+//@ func (*Hub).Delete$1
+//@   requires spec_hubOK(h)
+//@   modifies *
+//@   ensures[hubOK] spec_hubOK(h)
+//@   ensures[relayOnce C15] forall l Listener :: { ghost_nrecv(l) } ghost_nrecv(l) == old(ghost_nrecv(l)) + vcIte(old(vcHas(h.listeners, l)), 1, 0)
+//@   ensures[delivered C15] forall l Listener :: { vcHas(h.listeners, l) } vcHas(h.listeners, l) ==> old(vcHas(h.listeners, l)) && !ghost_failed(l) &&
+//@      vcSeqAt(ghost_recvd(l), old(ghost_nrecv(l))) == spec_evDeleted(mailbox, id)
+//@   ensures[dropsOnlyFailed C15] forall l Listener :: { vcHas(h.listeners, l) } old(vcHas(h.listeners, l)) && !vcHas(h.listeners, l) ==> ghost_failed(l)
+//@   ensures[earlierKept C15] forall l Listener, j int :: { vcSeqAt(ghost_recvd(l), j) } 0 <= j && j < old(ghost_nrecv(l)) && (vcHas(h.listeners, l) || !old(vcHas(h.listeners, l))) ==> vcSeqAt(ghost_recvd(l), j) == old(vcSeqAt(ghost_recvd(l), j))
+//@   loop 2: invariant spec_hubOK(h)
+//@   loop 2: invariant forall l Listener :: { ghost_nrecv(l) } ghost_nrecv(l) == old(ghost_nrecv(l)) + vcIte(vcIn(rvisited, l), 1, 0)
+//@   loop 2: invariant forall l Listener :: { vcIn(rvisited, l) } vcIn(rvisited, l) ==> old(vcHas(h.listeners, l))
+//@   loop 2: invariant forall l Listener :: { vcHas(h.listeners, l) } vcHas(h.listeners, l) ==> old(vcHas(h.listeners, l)) &&
+//@      (vcIn(rvisited, l) ==> !ghost_failed(l) && vcSeqAt(ghost_recvd(l), old(ghost_nrecv(l))) == spec_evDeleted(mailbox, id))
+//@   loop 2: invariant forall l Listener :: { vcHas(h.listeners, l) } old(vcHas(h.listeners, l)) && !vcHas(h.listeners, l) ==> vcIn(rvisited, l) && ghost_failed(l)
+//@   loop 2: invariant forall l Listener, j int :: { vcSeqAt(ghost_recvd(l), j) } 0 <= j && j < old(ghost_nrecv(l)) && (vcHas(h.listeners, l) || !old(vcHas(h.listeners, l))) ==> vcSeqAt(ghost_recvd(l), j) == old(vcSeqAt(ghost_recvd(l), j))
+//@   loop 1: invariant spec_hubOK(h) && h.history != nil && p != nil && end != nil
+//@   serves C15
+
+// AddListener: the listener is registered (after the history playback); nobody is removed.
+//@ func (*Hub).AddListener$1
+//@   requires spec_hubOK(h) && l != nil
+//@   modifies *
+//@   ensures[registered C15] spec_hubOK(h) && vcHas(h.listeners, l)
+//@   serves C15
+
+// RemoveListener: exactly that listener is removed.
+//@ func (*Hub).RemoveListener$1
+//@   requires spec_hubOK(h)
+//@   modifies mapof(h.listeners)
+//@   ensures[removed C15] spec_hubOK(h) && !vcHas(h.listeners, l) && forall x Listener :: { vcHas(h.listeners, x) } x != l ==> vcHas(h.listeners, x) == old(vcHas(h.listeners, x))
+//@   serves C15
